@@ -15,6 +15,10 @@ type driverMon struct {
 	extra []string
 }
 
+// afterBuild, when set, sees every program of a batch after generation and
+// compilation (static checks of a property that needs more than the driver).
+var afterBuild func(b *genlab.Batch, pr *genlab.Prog)
+
 // runDrivers generates batches of programs through the real CLI, builds a
 // driver per batch and runs the given monitors inside it.
 func runDrivers(r *core.Run, thriftrw, stream string, nProgs, batch uint64, buildFlags []string, env []string, mons []driverMon) {
@@ -35,6 +39,9 @@ func runDrivers(r *core.Run, thriftrw, stream string, nProgs, batch uint64, buil
 		nt, nc, nf := 0, 0, 0
 		for _, pr := range b.Progs {
 			r.Add("programs", 1)
+			if afterBuild != nil {
+				afterBuild(b, pr)
+			}
 			if !pr.GenOK || !pr.BuildOK {
 				// C06's business; this check works with the programs that build
 				r.Add("programs_skipped_not_generated_or_not_compiling", 1)
